@@ -68,7 +68,7 @@ CHECKS = {
          "DESIGN.md §4 C13"),
  "C14": ("fault_enumeration",
          "runtime monitor: combinator-algebra reference evaluator vs the real combinators on random composition terms; leaf probes log (id, input, random word drawn through next_u32 / next_u64 / fill_bytes in turn); failure injected at every leaf call; error path read through Error::source() and Display",
-         "3e5 (quick) / 5e6 (thorough) random terms to depth 5 over then/and/map(pair|array|vec)/apply_n_times<0..3,5,8,17,33>/Identity/Constant on inputs incl. vectors of up to 100 elements, each with m <= 130 leaf calls run m+1 times (failure at each call and none): output, full call log (order, inputs, words), stream fingerprint, failing leaf and error path must match; six statically typed shapes; wrappers Select/Mutate/Recombine (by value/by reference), GenomeExtractor, GenomeScorer, Identity, Constant compared with the wrapped thing.",
+         "3e5 (quick) / 5e6 (thorough) random terms to depth 5 over then/and/map(pair|array|vec)/apply_n_times<0..3,5,8,17,33>/Identity/Constant on inputs incl. vectors of up to 100 elements, each with m <= 130 leaf calls run m+1 times (failure at each call and none): output, full call log (order, inputs, words), stream fingerprint, failing leaf and error path must match; six statically typed shapes; wrappers Select/Mutate/Recombine (by value/by reference), GenomeExtractor, GenomeScorer, Identity, Constant compared with the wrapped thing. All reference forms of the forwarding impls (&M, &&M, &mut M, &R, &&R, &S, &&S and the wrappers around them) are compared with the direct call.",
          "Combinator error types are unnameable outside ec-core, so the failing part is read from the documented Display texts; an unrecognised text is inconclusive.",
          "DESIGN.md §4 C14"),
  "C05": ("exploration",
@@ -78,7 +78,7 @@ CHECKS = {
          "DESIGN.md §4 C05"),
  "C19": ("exploration",
          "runtime monitor over generated code: a reference type-state automaton produces random legal builder call sequences that are compiled and run (built state vs automaton record) for PushState and five fixture structs (incl. unusual field order and options split over several attributes); every call sequence up to a length bound is type-checked by one `cargo check --message-format=json` and rustc's accept/reject verdict per function is compared with what the statement requires",
-         "Run time: 400 (quick) / 3000 (thorough) random legal sequences incl. overflowing value lists, plus all declaration orders of up to 5 inputs, program order observed by running, an overflow boundary grid (capacity 0..5 x length 0..7 on every stack incl. the second values call), accessor consistency. Compile time: all sequences of up to 3 (quick) / 4 (thorough) calls + build() over a reduced alphabet for 5 structs (2.7e3 / 2.3e4 functions): must-compile sequences must be accepted, statement-named misuse (incomplete build, size change after data) must be rejected, everything else is recorded.",
+         "Run time: 400 (quick) / 3000 (thorough) random legal sequences incl. overflowing value lists, plus all declaration orders of up to 5 inputs, program order observed by running, an overflow boundary grid (capacity 0..5 x length 0..7 on every stack incl. the second values call), accessor consistency. Compile time: all sequences of up to 3 (quick) / 4 (thorough) calls + build() over a reduced alphabet for 5 structs (2.7e3 / 2.3e4 functions): must-compile sequences must be accepted, statement-named misuse (incomplete build, size change after data) must be rejected, everything else is recorded. Exact-size iterators announcing up to usize::MAX values onto empty / loaded, bounded / unbounded stacks must be reported as Overflow.",
          "The compile-time clause is decided by observing rustc, flagged as such in DESIGN.md; fixtures with >=2 stacks use !has_stack (generated HasStack impls fail coherence outside the push crate).",
          "DESIGN.md §4 C19"),
  "C01": ("exploration",
@@ -98,7 +98,7 @@ CHECKS = {
          "DESIGN.md §4 C03"),
  "C04": ("exploration",
          "runtime monitor: history + executable Vec/capacity model checked after every operation; exhaustive small-scope histories + long random histories with a drop-counting element type",
-         "Every history of stack operations up to length 5 (quick) / 6 (thorough) over a 27-operation alphabet from capacities 0..4 is executed on the real Stack and compared with a Vec+capacity model after every operation (return value, exact underflow payload, full contents, size/is_empty/is_full/max; Stack == Vec / slice / array cross-checked against the contents obtained by popping a clone); plus random 10^4-operation histories with capacities lowered below the current size and usize::MAX (every fourth on stacks of up to 70000 elements with bulk operations of up to 3000 items; exact-size iterators that only claim up to usize::MAX items and must be refused without allocating), and a drop-counting element type for conservation. Exhaustive within the stated scope, sampled beyond it.",
+         "Every history of stack operations up to length 5 (quick) / 6 (thorough) over a 27-operation alphabet from capacities 0..4 is executed on the real Stack and compared with a Vec+capacity model after every operation (return value, exact underflow payload, full contents, size/is_empty/is_full/max; Stack == Vec / slice / array cross-checked against the contents obtained by popping a clone); plus random 10^4-operation histories with capacities lowered below the current size and usize::MAX (every fourth on stacks of up to 70000 elements with bulk operations of up to 3000 items; exact-size iterators that only claim up to usize::MAX items and must be refused without allocating), and a drop-counting element type for conservation. Exhaustive within the stated scope, sampled beyond it. Insertion through the state-level helpers (with_push / with_replace / push_onto / replace_on / with_stack_push) on states whose maximum was changed after filling: 2e5 (quick) / 2e6 (thorough) cases.",
          "Trusts the 60-line model as the reading of the statement; zero-element insertion into an over-full stack is not judged.",
          "DESIGN.md §4 C04"),
 }
@@ -139,7 +139,7 @@ def main():
              "kind_free_text": "cargo workspace of runtime monitors, one binary per property, (reference models, probe operators, recording RNG, statistical monitor, event-log checkers; Miri/TSan for C09) that path-depends on /repo/packages/* and is rebuilt by ./check on every run"},
         ],
         "checks": checks,
-        "notes": "Runtime monitoring only. Verdicts are three-valued; INCONCLUSIVE lines never fail a run, a run that observed nothing exits 3. known_findings.json lists repaired (fixed:) and open findings; only open entries with an exact signature are downgraded to KNOWN-FINDING lines. Every check runs a hang watchdog: a worker thread that burns more than 300 (quick) / 900 (thorough) CPU-seconds inside one monitored evaluation is reported as <ID>/hang; the largest gap seen is written into the evidence (coverage.hang_watchdog).",
+        "notes": "Runtime monitoring only. Verdicts are three-valued; INCONCLUSIVE lines never fail a run, a run that observed nothing exits 3. known_findings.json lists repaired (fixed:) and open findings; only open entries with an exact signature are downgraded to KNOWN-FINDING lines. Every check runs as a supervised child of itself (a death of the process while a worker thread is inside a call into the code under test is reported as <ID>/aborted with that thread's context; otherwise INCONCLUSIVE, exit 3) and runs a hang watchdog: a worker thread that burns more than 300 (quick) / 900 (thorough) CPU-seconds inside one monitored evaluation is reported as <ID>/hang; the largest gap seen is written into the evidence (coverage.hang_watchdog).",
         "not_applicable": [{"property_id": p, "reason": PENDING_REASON} for p in ALL if p not in CHECKS],
     }
     with open(os.path.join(ROOT, "MANIFEST.json"), "w") as f:
